@@ -66,6 +66,9 @@ def build(c):
     n = c["natoms"]
     atoms = Atoms("Ar" * n, positions=fh(c["q"], (n, 3)))
     atoms.set_masses(fh(c["masses"]))
+    if c.get("bonds"):
+        from ase.constraints import FixBondLengths
+        atoms.set_constraint(FixBondLengths(c["bonds"]))      # rigid bonds: a non-linear constraint (momenta are projected when set)
     atoms.set_momenta(fh(c["p"], (n, 3)))
     atoms.calc = Pot(fh(c["k"]), fh(c["r0"], (n, 3)), c.get("quartic", 0.0), c.get("morse"))
     return atoms
@@ -81,7 +84,7 @@ def verlet_case(c):
         other.set_masses(fh(c["masses"])[::-1] * 3.5 + 1.0)
         other.positions += 0.05
         v.integrate(HamiltonianDisplacementContext(other, np.random.default_rng(2)))
-    out = {"dt_internal": float(v.dt).hex(), "H0": atoms.get_total_energy()}
+    out = {"dt_internal": float(v.dt).hex(), "H0": atoms.get_total_energy(), "q0": hx(atoms.positions), "p0": hx(atoms.get_momenta())}
     v.integrate(ctx)
     out["q1"], out["p1"], out["H1"] = hx(atoms.positions), hx(atoms.get_momenta()), atoms.get_total_energy()
     atoms.set_momenta(-atoms.get_momenta())
